@@ -294,9 +294,62 @@ def rows_of(dag, n):
     return rows
 
 
+class _StopHistory(Exception):
+    pass
+
+
+def _drive_conductor(dag, case, root, make_pin, record):
+    """Run the REAL Conductor.monitor_study loop over the scripted scheduler.  The
+    poll boundary is the loop's sleep() call: the hook closes the poll that just
+    ran and prepares the next one (a cancel request = the .cancel.lock file the
+    loop looks for, created through the real Conductor.mark_cancelled)."""
+    import maestrowf.conductor as cm
+    from maestrowf.conductor import Conductor
+
+    class _Study(object):
+        name = "study"
+        output_path = root
+
+    cond = Conductor.__new__(Conductor)
+    cond._study = _Study()
+    cond._exec_dag = dag
+    cond._pkl_path = root
+    cond._setup = True
+    cond.sleep_time = 1
+    cur = {"pin": None}
+
+    def begin():
+        cur["pin"] = make_pin()
+        if cur["pin"]["cancel"]:
+            Conductor.mark_cancelled(root)
+
+    def hook(_t):
+        if not record(cur["pin"], "RUNNING"):
+            raise _StopHistory()
+        begin()
+
+    saved = cm.sleep
+    cm.sleep = hook
+    try:
+        begin()
+        try:
+            st = cond.monitor_study()
+            record(cur["pin"], st.name)
+        except _StopHistory:
+            pass
+        except RuntimeError as e:
+            record(cur["pin"], "ABORT" if "Job status check failed" in str(e) else "EXC:RuntimeError")
+        except Exception as e:
+            case["exc"] = repr(e)[:300]
+            record(cur["pin"], "EXC:" + type(e).__name__)
+    finally:
+        cm.sleep = saved
+    case["via_conductor"] = True
+
+
 def run_history(nodes, cfg, rng, profile="mixed", max_polls=14, cancel_p=0.04, qerr_p=0.015, qnojobs_p=0.06,
                 sub_ok_p=0.85, fair_after=None, scripted_pins=None, root=None, fair_bound=None,
-                after_poll=None, chooser=None, enum=None):
+                after_poll=None, chooser=None, enum=None, via_conductor=False):
     """Run one history against the real ExecutionGraph.  Returns a case dict:
     nodes, cfg, polls=[{pin..., events, rows, status}], end = 'final'|'running'|'exc'."""
     global CTX
@@ -315,21 +368,22 @@ def run_history(nodes, cfg, rng, profile="mixed", max_polls=14, cancel_p=0.04, q
         case["end"] = "exc"
         case["exc"] = "build:" + type(e).__name__ + ":" + str(e)[:200]
         return case
-    k = 0
-    cancelled_once = False
-    limit = max_polls if scripted_pins is None else len(scripted_pins)
-    while k < limit:
+    state = {"k": 0, "cancelled_once": False,
+             "limit": max_polls if scripted_pins is None else len(scripted_pins)}
+
+    def make_pin():
+        k = state["k"]
         if scripted_pins is not None:
             sp = scripted_pins[k]
             pin = {"cancel": sp["cancel"], "q": sp["q"], "reports": [list(r) for r in sp["reports"]],
                    "subs": list(sp["subs"])}
         elif chooser is not None:
-            cancel = bool(enum.get("cancel")) and not cancelled_once and chooser.pick(2) == 1
+            cancel = bool(enum.get("cancel")) and not state["cancelled_once"] and chooser.pick(2) == 1
             q = ["OK", "NOJOBS", "ERROR"][chooser.pick(3)] if enum.get("q") else "OK"
             pin = {"cancel": cancel, "q": q, "reports": [], "subs": []}
         else:
             c.fair = fair_after is not None and k >= fair_after
-            cancel = (not c.fair) and (not cancelled_once or rng.random() < 0.2) and rng.random() < cancel_p
+            cancel = (not c.fair) and (not state["cancelled_once"] or rng.random() < 0.2) and rng.random() < cancel_p
             r = rng.random()
             q = "OK"
             if not c.fair:
@@ -339,20 +393,14 @@ def run_history(nodes, cfg, rng, profile="mixed", max_polls=14, cancel_p=0.04, q
                     q = "NOJOBS"
             pin = {"cancel": cancel, "q": q, "reports": [],
                    "subs": [rng.random() < (0.97 if c.fair else sub_ok_p) for _ in range(rng.choice([0, 4, 8, 12]))]}
-        cancelled_once = cancelled_once or pin["cancel"]
+        state["cancelled_once"] = state["cancelled_once"] or pin["cancel"]
         c.pin = pin
         c.subs = list(pin["subs"])
         c.events = []
-        status = None
-        try:
-            if pin["cancel"]:
-                dag.cancel_study()
-            status = dag.execute_ready_steps().name
-        except RuntimeError as e:
-            status = "ABORT" if "Job status check failed" in str(e) else "EXC:RuntimeError"
-        except Exception as e:
-            status = "EXC:" + type(e).__name__
-            case["exc"] = repr(e)[:300]
+        return pin
+
+    def record(pin, status):
+        """close the current poll; returns True when the history goes on"""
         try:
             rows = rows_of(dag, n)
         except Exception as e:
@@ -362,13 +410,33 @@ def run_history(nodes, cfg, rng, profile="mixed", max_polls=14, cancel_p=0.04, q
         poll.update({"events": c.events, "rows": rows, "status": status})
         case["polls"].append(poll)
         if after_poll is not None:
-            after_poll(dag, case, k)
-        k += 1
+            after_poll(dag, case, state["k"])
+        state["k"] += 1
         if status != "RUNNING":
             case["end"] = "exc" if status.startswith("EXC") else "final"
-            break
-        if scripted_pins is None and fair_after is not None and k >= limit and fair_bound and k < fair_bound:
-            limit = fair_bound
+            return False
+        if scripted_pins is None and fair_after is not None and state["k"] >= state["limit"] and fair_bound \
+                and state["k"] < fair_bound:
+            state["limit"] = fair_bound
+        return state["k"] < state["limit"]
+
+    if via_conductor:
+        _drive_conductor(dag, case, root, make_pin, record)
+    else:
+        while state["k"] < state["limit"]:
+            pin = make_pin()
+            status = None
+            try:
+                if pin["cancel"]:
+                    dag.cancel_study()
+                status = dag.execute_ready_steps().name
+            except RuntimeError as e:
+                status = "ABORT" if "Job status check failed" in str(e) else "EXC:RuntimeError"
+            except Exception as e:
+                status = "EXC:" + type(e).__name__
+                case["exc"] = repr(e)[:300]
+            if not record(pin, status):
+                break
     try:
         dag.cleanup()
     except Exception:
